@@ -70,6 +70,8 @@ type caseDesc struct {
 	AfterConcurrent int      `json:"concurrent_connections_right_after_loss"`
 	// Verify: the client checks server certificates (CA configured, not insecure)
 	Verify bool `json:"client_verifies_certificates,omitempty"`
+	// ForwardEnd (forward reachable): how the direct connections end: "" orderly, reset-by-application, reset-by-target
+	ForwardEnd string `json:"direct_connections_end,omitempty"`
 }
 
 // endpoint is one upstream candidate as built by the harness.
@@ -286,11 +288,21 @@ func expected(d caseDesc) int {
 
 // probe opens one local connection and reports which banner answered ("" = failed).
 func probe(listen string, timeout time.Duration) (string, string) {
+	return probeEnding(listen, timeout, false)
+}
+
+// probeEnding: with abort the application ends its connection with a reset instead of an orderly close.
+func probeEnding(listen string, timeout time.Duration, abort bool) (string, string) {
 	c, err := net.DialTimeout("tcp", listen, 5*time.Second)
 	if err != nil {
 		return "", "dial: " + err.Error()
 	}
-	defer c.Close()
+	defer func() {
+		if tc, ok := c.(*net.TCPConn); ok && abort {
+			tc.SetLinger(0)
+		}
+		c.Close()
+	}()
 	c.SetDeadline(time.Now().Add(timeout))
 	buf := make([]byte, 64)
 	n := 0
@@ -339,7 +351,23 @@ func runCase(d caseDesc, abandonBound time.Duration) (problem string, inconclusi
 	al := listener.AbstractListener{ProtoName: addr.ProtoName{Name: "data"}}
 	switch d.Forward {
 	case "reachable":
-		fwdTgt = vlib.NewTarget("forward", vlib.BannerEchoHandler)
+		handler := vlib.BannerEchoHandler
+		if d.ForwardEnd == "reset-by-target" {
+			handler = func(tc *vlib.TargetConn) {
+				tc.Conn.Write([]byte("forward\n"))
+				buf := make([]byte, 64)
+				tc.Conn.SetReadDeadline(time.Now().Add(10 * time.Second))
+				if n, _ := tc.Conn.Read(buf); n > 0 {
+					tc.Conn.Write(buf[:n])
+				}
+				time.Sleep(20 * time.Millisecond)
+				if t, ok := tc.Conn.(*net.TCPConn); ok {
+					t.SetLinger(0)
+				}
+				tc.Conn.Close()
+			}
+		}
+		fwdTgt = vlib.NewTarget("forward", handler)
 		defer fwdTgt.Close()
 		f := addr.MustParseAddress(fwdTgt.URL())
 		al.Forward = &f
@@ -378,7 +406,10 @@ func runCase(d caseDesc, abandonBound time.Duration) (problem string, inconclusi
 		var wg sync.WaitGroup
 		for i := 0; i < k; i++ {
 			wg.Add(1)
-			go func(i int) { defer wg.Done(); res[i], errs[i] = probe(listen, abandonBound) }(i)
+			go func(i int) {
+				defer wg.Done()
+				res[i], errs[i] = probeEnding(listen, abandonBound, d.ForwardEnd == "reset-by-application")
+			}(i)
 		}
 		wg.Wait()
 		for i := range res {
@@ -393,6 +424,14 @@ func runCase(d caseDesc, abandonBound time.Duration) (problem string, inconclusi
 	}
 	physical := func() string {
 		if d.Forward == "reachable" {
+			if d.ForwardEnd != "" {
+				time.Sleep(300 * time.Millisecond) // whatever follows the end of the direct connections has happened by now
+			}
+			for i, e := range eps {
+				if e.relay != nil && e.relay.Connections() > 0 {
+					return fmt.Sprintf("forward address reachable (direct connections ended: %s) but upstream %d received a physical connection", d.ForwardEnd, i)
+				}
+			}
 			for i, e := range eps {
 				if e.tgt != nil && e.tgt.Accepts() > 0 {
 					return fmt.Sprintf("forward address reachable but server%d's target was contacted", i)
@@ -525,6 +564,9 @@ func TestPolicy(t *testing.T) {
 			d.Ups = append(d.Ups, u)
 		}
 		d.Forward = []string{"none", "none", "reachable", "unreachable"}[rapid.IntRange(0, 3).Draw(rt, "forward")]
+		if d.Forward == "reachable" {
+			d.ForwardEnd = []string{"", "reset-by-application", "reset-by-target"}[rapid.IntRange(0, 2).Draw(rt, "forwardEnd")]
+		}
 		d.K = rapid.IntRange(1, 5).Draw(rt, "k")
 		d.Loss = []string{"none", "cut-rst", "cut-fin", "server-restart"}[rapid.IntRange(0, 3).Draw(rt, "loss")]
 		d.After = rapid.IntRange(1, 3).Draw(rt, "after")
@@ -656,6 +698,26 @@ func TestFailoverWithVerification(t *testing.T) {
 		if problems[i] != "" {
 			vlib.Rec.Violation(map[string]interface{}{"property": "C16", "case": d, "problem": problems[i]})
 			t.Errorf("C16 %+v: %s", d, problems[i])
+		}
+	}
+}
+
+// TestDirectConnectionsHoweverTheyEnd enumerates a reachable forward address whose direct connections end in an orderly
+// way, with a reset by the application, or with a reset by the forward target: the upstreams are never contacted.
+func TestDirectConnectionsHoweverTheyEnd(t *testing.T) {
+	for _, end := range []string{"", "reset-by-application", "reset-by-target"} {
+		for _, k := range []int{1, 3} {
+			d := caseDesc{Ups: []upSpec{{Kind: "tcp", Fate: fWorks}, {Kind: "http", Fate: fWorks}}, Forward: "reachable", ForwardEnd: end, K: k, Loss: "none"}
+			problem, inconclusive := runCase(d, 15*time.Second)
+			if inconclusive {
+				vlib.Rec.Inconclusive("setup")
+				continue
+			}
+			vlib.Rec.Case(fmt.Sprintf("%+v", d), true, append(describe(d), "direct-connections-end:"+end), func() interface{} { return d })
+			if problem != "" {
+				vlib.Rec.Violation(map[string]interface{}{"property": "C16", "case": d, "problem": problem})
+				t.Errorf("C16 %+v: %s", d, problem)
+			}
 		}
 	}
 }
